@@ -75,6 +75,7 @@ func (v *VM) Run() (err error) {
 	v.allocs = v.maxAllocs + 1
 
 	v.run()
+	verifYield("run.before_reset")
 	atomic.StoreInt64(&v.aborting, 0)
 	err = v.err
 	if err != nil {
@@ -97,6 +98,7 @@ func (v *VM) Run() (err error) {
 func (v *VM) run() {
 	for atomic.LoadInt64(&v.aborting) == 0 {
 		v.ip++
+		verifProbe(v)
 
 		switch v.curInsts[v.ip] {
 		case parser.OpConstant:
